@@ -171,16 +171,155 @@ def rand_plain(rng, tid=None):
     else: b = bytes(rng.randrange(256) for _ in range(n))
     return tid, b
 
+# ------------------------------------------------------------------------------------------------ aliasing
+# `&k <term>` names the object built from <term>, `*k` is that object again.  A Tuple that references one object from two
+# slots is generated as the LEFT operand of `lcmp` only (right operand: known finding KF-C09-tuple-dup-obj).
+SMALL_I = [0, 1, 2, -1, 1 << 32, I64_MIN, I64_MAX]
+SMALL_S = [b'', b'a', b'ab', b'a\xff', b'b']
+SMALL_F = [0, 1 << 63, 1, 0x3ff0000000000000, 0x4000000000000000, 0x7ff0000000000000, 0xfff0000000000000]
+
+def small_elem(rng, ek):
+    """one element term of kind ek: scalars from small pools (so that equal values in different objects are common)"""
+    if ek == 'i': return ti(rng.choice(SMALL_I))
+    if ek == 's': return ts(rng.choice(SMALL_S))
+    if ek == 'f': return tf(rng.choice(SMALL_F))
+    if ek in ('A', 'L'): return seq_term(ek, [ti(rng.choice([0, 1, 2])) for _ in range(rng.randrange(0, 3))])
+    if ek == 'T': return seq_term('T', [ti(rng.choice([0, 1, 2])) for _ in range(rng.randrange(0, 3))])
+    if ek == 'R': return tree_term([(ti(k), ts(rng.choice(SMALL_S))) for k in rng.sample([0, 1, 2], rng.randrange(0, 3))])
+    raise ValueError(ek)
+
+class Names:
+    """object names of one op line"""
+    def __init__(self): self.n = 0
+    def new(self):
+        self.n += 1
+        if self.n > 63: raise ValueError('too many names on one line')
+        return self.n
+
+def shared_tuple(rng, names, ek, n, inner_dup=False):
+    """a Tuple of n slots over fewer than n objects (so at least one object sits in two slots)
+    -> (term, content terms slot by slot, object name slot by slot, names of slots whose object itself holds such a Tuple)"""
+    nobj = rng.randrange(1, n)
+    objs = []; inner = set()
+    for j in range(nobj):
+        if ek == 'T' and inner_dup and rng.random() < 0.4:
+            t, c, _, _ = shared_tuple(rng, names, 'i', rng.randrange(2, 4))
+            objs.append((t, seq_term('T', c))); inner.add(j)
+        else:
+            e = small_elem(rng, ek); objs.append((e, e))
+    assign = list(range(nobj)) + [rng.randrange(nobj) for _ in range(n - nobj)]
+    r = rng.random()
+    if r < 0.5: rng.shuffle(assign)                     # anywhere
+    elif r < 0.75: assign.sort()                        # adjacent repeats
+    name = {}; slots = []; content = []; who = []
+    for j in assign:
+        if j in name: slots.append(f'*{name[j]}')
+        else:
+            name[j] = names.new(); slots.append(f'&{name[j]} {objs[j][0]}')
+        content.append(objs[j][1]); who.append(name[j])
+    return seq_term('T', slots), content, who, {name[j] for j in inner if j in name}
+
+def alias_left_case(rng):
+    """lcmp <Tuple with a repeated object> <Tuple / Array / List without one>: equal, shorter, longer, differing before /
+    at / after the repeated slot; the right operand may reference objects of the left one (each at most once)"""
+    names = Names()
+    ek = rng.choice(['i', 'i', 'i', 's', 'f', 'A', 'L', 'T', 'T', 'R'])
+    n = rng.randrange(2, 7)
+    left, content, who, tainted = shared_tuple(rng, names, ek, n, inner_dup=True)
+    first_rep = next(i for i in range(n) if who[i] in who[:i])          # the first slot that repeats an earlier object
+    right = list(content); r = rng.random()
+    if r < 0.22: pass                                                    # equal content
+    elif r < 0.40: right = right[:rng.randrange(0, n)]                   # shorter
+    elif r < 0.58: right = right + [small_elem(rng, ek) for _ in range(rng.randrange(1, 3))]   # longer
+    else:
+        q = rng.random()
+        if q < 0.6 and first_rep + 1 < n: i = rng.randrange(first_rep + 1, n)    # differs after the repeated slot
+        elif q < 0.8: i = first_rep
+        else: i = rng.randrange(0, n)
+        right[i] = small_elem(rng, ek)
+        if rng.random() < 0.25: right = right[:i + 1]
+        elif rng.random() < 0.2: right = right + [small_elem(rng, ek)]
+    rk = 'T' if ek in ('T', 'R') else rng.choice('TAL')
+    if rk == 'T' and rng.random() < 0.4:
+        used = set()
+        for i in range(min(len(right), n)):
+            if right[i] == content[i] and who[i] not in used and who[i] not in tainted and rng.random() < 0.5:
+                right[i] = f'*{who[i]}'; used.add(who[i])               # the same object, once, in the right operand too
+    return f'lcmp {left} {seq_term(rk, right)}'
+
+def alias_nested_case(rng):
+    """the Tuple with a repeated object one level down in the left operand; or the same inner Tuple in two slots"""
+    names = Names()
+    inner, content, _, _ = shared_tuple(rng, names, rng.choice('iis'), rng.randrange(2, 5))
+    tail = [small_elem(rng, 'i') for _ in range(rng.randrange(0, 3))]
+    rin = list(content)
+    if rng.random() < 0.5 and rin: rin[rng.randrange(len(rin))] = small_elem(rng, 'i' if content[0][0] == 'i' else 's')
+    rtail = list(tail)
+    if rng.random() < 0.3 and rtail: rtail[-1] = small_elem(rng, 'i')
+    if rng.random() < 0.5:
+        left = seq_term('T', [inner] + tail); right = seq_term('T', [seq_term(rng.choice('TAL'), rin)] + rtail)
+    else:
+        # the outer Tuple holds the inner one twice: every element of both operands is a sequence (an identity walk may
+        # bring any of them against any other)
+        k = names.new()
+        tail = [seq_term('T', [t]) for t in tail]; rtail = [seq_term(rng.choice('TAL'), [t]) for t in rtail]
+        left = seq_term('T', [f'&{k} {inner}', f'*{k}'] + tail)
+        right = seq_term('T', [seq_term(rng.choice('TAL'), list(content)), seq_term(rng.choice('TAL'), rin)] + rtail)
+    return f'lcmp {left} {right}'
+
+def alias_self_case(rng, B):
+    """cmp(x, x) for every kind; x never holds a Tuple with a repeated object"""
+    r = rng.random()
+    if r < 0.3: x = rand_scalar(rng, rng.choice('ifst'), B)
+    elif r < 0.4: tid, b = rand_plain(rng); return f'cmp &1 p{tid}:{b.hex()} *1'
+    elif r < 0.6: x = rand_seq_pair(rng, B, 1)[0]
+    elif r < 0.8: x = rand_tuple_pair(rng, B, 1)[0]
+    else: x = rand_tree_pair(rng, B, 1)[0]
+    if rng.random() < 0.2: return f'tri &1 {x} *1 *1'
+    return f'cmp &1 {x} *1'
+
+def alias_between_case(rng):
+    """two (or three) Tuples / Arrays / Lists built over a common pool of objects, none holding an object twice"""
+    names = Names()
+    ek = rng.choice(['i', 'i', 's', 'f', 'A', 'T'])
+    pool = [(names.new(), small_elem(rng, ek)) for _ in range(rng.randrange(1, 5))]
+    defined = set()
+    def operand():
+        k = 'T' if ek == 'T' else rng.choice('TTAL')
+        n = rng.randrange(0, 5); used = set(); out = []
+        for _ in range(n):
+            nm, term = rng.choice(pool)
+            if rng.random() < 0.7 and (k != 'T' or nm not in used):
+                used.add(nm)
+                if nm in defined: out.append(f'*{nm}')
+                else: defined.add(nm); out.append(f'&{nm} {term}')
+            else: out.append(small_elem(rng, ek))
+        return seq_term(k, out)
+    if rng.random() < 0.7: return f'cmp {operand()} {operand()}'
+    return f'tri {operand()} {operand()} {operand()}'
+
+def alias_lines(rng, B, n):
+    out = []
+    for _ in range(n):
+        r = rng.random()
+        if r < 0.6: out.append(alias_left_case(rng))
+        elif r < 0.72: out.append(alias_nested_case(rng))
+        elif r < 0.86: out.append(alias_between_case(rng))
+        else: out.append(alias_self_case(rng, B))
+    return out
+
 def chunks(prefix, lines, size):
     return [Case(f'{prefix}{i // size}', lines[i:i + size]) for i in range(0, len(lines), size)]
 
 class C09(Spec):
     id = 'C09'; engine = 'cmp'; harness = 'h_cmp'; driver = 'drv_cmp'
-    generators = ('Cmp',)
+    generators = ('Cmp', 'CmpLoops')
     harness_timeout = 600
     technique = ('Lean 4 proof: Int_Cmp / Float_Cmp / eq..le translated from the C source on every run (C-expression to BitVec translator), '
                  'theorems over all 2^128 pairs via toInt+omega; lexicographic lifting of any lawful comparison by induction; '
-                 'differential check of the model against the real cmp on boundary grids, random pairs and triples, plus a direct reference order in C')
+                 'object graphs with identity for Tuples (one object in several slots / in both operands / as both operands) under the traversal discipline '
+                 'read off the loop texts on every run; differential check of the model against the real cmp on boundary grids, random pairs and triples, '
+                 'aliasing corpora, plus a direct content-based reference order in C (forked child + watchdog for calls that may not return)')
     level_text = ('Theorems (Lean 4, no sorry): C09_int — the sign of Int_Cmp as TRANSLATED from src/Num.c on every run equals the order of the two 64-bit integers for all '
                   '2^128 pairs (toInt + omega), hence C09_int_lawful: antisymmetric, transitive, reflexive, 0 only for equal values; C09_bytes — strcmp/memcmp sign is the '
                   'lexicographic order of unsigned bytes, lawful and strict; C09_lex / C09_lex_eq / C09_lex_shape / C09_tree — any lawful element comparison lifts to '
@@ -190,12 +329,20 @@ class C09(Spec):
                   'C09_val / C09_val_float_free — cmp on every well-kinded nested value (any depth) is a lawful order, 0 exactly on equal content, unconditionally when no Float occurs; '
                   'C09_tree_order / C09_tree_finds_every_key — a Tree built under a lawful cmp iterates strictly descending and holds every key set; '
                   'C09_int_truncating_refuted — the pre-fix subtract-and-truncate Int_Cmp returns 0 on (0, 2^32) and is not antisymmetric; C09_loops_as_modelled — the C loop '
-                  'texts equal the texts the model mirrors. The model is tied to the real functions by running boundary grids and random pairs/triples on both, '
-                  'and the real results are checked against an independent reference order in C.')
+                  'and iterator-step texts equal the texts the model mirrors; C09_discipline_as_modelled — Array_Cmp/List_Cmp advance along self through their iterators, Tuple_Cmp by slot index '
+                  '(read off the source on every run). ALIASING (objects with identity, objCmpF): C09_tuple_walk_content_partial — under the source discipline cmp(self, obj) ends within '
+                  'size(self) steps and equals the comparison of the CONTENTS for every self (any object in any number of Tuple slots at any depth, shared with obj, or self = obj), '
+                  'provided no Tuple inside obj holds an object twice; C09_obj — hence a lawful order, 0 exactly on equal content, on such objects; '
+                  'C09_tuple_walk_content_refuted — known finding KF-C09-tuple-dup-obj: a Tuple holding an object twice as the RIGHT operand is walked by identity (Tuple_Iter_Next): '
+                  'cmp(x,x)=1, cmp(x,arr)=0 but cmp(arr,x)=1; C09_tuple_identity_walk_refuted — the variant of Tuple_Cmp that walks self through Tuple_Iter_Next is not an order: '
+                  '-1 against an Array of equal content, +1 against a longer List, and cmp(x,x) has no value for any fuel (never terminates). '
+                  'The model is tied to the real functions by running boundary grids, random pairs/triples and the aliasing corpora on both, '
+                  'and the real results are checked against an independent content-based reference order in C.')
     level_note = ('partial for Float: the hypothesis SubSign (sign of the double difference = sign of the real difference, non-NaN) is tested on the '
                   'grid (denormals, signed zeros, infinities, extremes, random bits), never proved; Lean does not model IEEE-754. '
                   'Trusted: Lean kernel; the C-expression translator translate/g_cmp.py (machine integer semantics of `-`, casts, signed `<`); '
                   'libc strcmp/memcmp return the sign of the first differing unsigned byte (C standard; tested); harness/driver comparison is testing. '
+                  'Partial for aliasing: proved for every self and every obj none of whose Tuples holds an object twice; the rest is the known finding (refuted theorem). '
                   'Not covered: comparisons between values of different kinds (Int with Float, …: c_int/c_float conversions), NaN, Table_Cmp (C10), '
                   'Thread/Range/Slice/Ref/Box/File comparisons, strings with embedded NUL.')
     rule = ('ops: `cmp A B` (sign both ways + six predicates), `tri A B C` (six signs), `keys …` (Tree + Table keyed on the values), `sort …`. '
@@ -203,29 +350,48 @@ class C09(Spec):
             'strings (prefixes, bytes 0x01/0x7f/0x80/0xff), all built-in type names, plain structs of 0/4/16 bytes (two distinct 4-byte types); '
             'random pairs and triples biased to boundaries and to related values; Array/List/Tuple of scalars and of containers with related contents '
             '(equal, prefix, extension, one element changed) in every combination of container kinds; Trees with permuted insertion order, changed key / value, '
-            'repeated key. non-trivial = the observation shows a non-zero sign, an exception, or a keys/sort op over at least 2 values; distinct = distinct op text.')
-    trusted_base = ('translate/g_cmp.py (C expression fragment -> BitVec 64/32 semantics; regex extraction of function bodies)',
+            'repeated key. Aliasing (`&k term` names an object, `*k` is that object again; `lcmp A B` = one direction): a Tuple over fewer objects than slots '
+            '(adjacent / scattered / triple repeats, scalars, Arrays, Lists, Trees and Tuples — themselves with repeats — as the shared object) as the LEFT operand against '
+            'Tuple/Array/List of equal content, shorter, longer, differing before / at / after the repeated slot, optionally referencing the left operand\'s objects; '
+            'the repeat one level down and the same inner Tuple in two slots; operands built over a common pool of objects; cmp(x, x) and tri(x, x, x) for every kind; '
+            'long (300/1500) Tuples over three objects. Comparisons whose operands hold a Tuple with a repeated object, and all comparisons after a first oracle failure, '
+            'run in a forked child with 300 ms of CPU time per call (`H` when it is used up); the rest under a CPU-time watchdog (sig=cmp-hang). '
+            'non-trivial = the observation shows a non-zero sign, an exception, or a keys/sort op over at least 2 values; distinct = distinct op text.')
+    trusted_base = ('translate/g_cmp.py (C expression fragment -> BitVec 64/32 semantics; regex extraction of function bodies; by-index / by-iterator read off the loop text)',
                     'harness/h_cmp.c + lean/Driver/Cmp.lean (correspondence is testing)',
                     'libc strcmp/memcmp sign convention; IEEE-754 double subtraction (hypothesis SubSign, tested)')
     assumptions = ('both operands of one kind at every level (Int/Int, Float/Float, String/String, Type/Type, sequence/sequence, Tree/Tree, plain struct/plain struct)',
                    'no NaN; strings without embedded NUL; Array/List elements of one element type; Tree keys and values scalar',
-                   'a Tuple never holds the same object twice (Tuple iteration searches by pointer: known finding F13 of C04/C11), so Type objects are not put into Tuples',
+                   'a Tuple that references one object from two slots is generated as the LEFT operand only: as the right operand it is walked by identity (known finding '
+                   'KF-C09-tuple-dup-obj, root cause F13; witness corpus/kf_c09_tuple_dup.ops, model agrees line by line); Type objects are not put into Tuples',
+                   'where a Tuple holds an object twice, all elements of the two sequences compared are of one kind (an identity walk may bring any of them against any other); no object contains itself',
                    'x86-64 SSE double arithmetic (no x87 excess precision, no flush-to-zero)')
 
     def cases(self, rng, tier, boost=1):
+        """boost > 1 = the intensified search of rule 6 (a tie broke, no failing input yet): the deterministic grids, the long
+        sequences and the ill-formed ops are unchanged in kind and are not repeated; scalars get fresh seeds at half the
+        base volume; the volume goes to containers and, first of all, to aliasing — the three rounds together cost about 3x one run."""
         quick = tier == 'quick'
+        intens = boost > 1
         B = int_boundaries()
         cs = []
-        # ---- full boundary grids
-        lines = [f'cmp {ti(a)} {ti(b)}' for a in B for b in B]
-        cs += chunks('grid_int', lines, 4000)
-        lines = [f'cmp {tf(a)} {tf(b)}' for a in FLT_B for b in FLT_B]
-        cs += chunks('grid_flt', lines, 4000)
-        lines = [f'cmp {ts(a)} {ts(b)}' for a in STR_B for b in STR_B]
-        lines += [f'cmp {tt(a)} {tt(b)}' for a in TYPE_NAMES for b in TYPE_NAMES]
-        cs += chunks('grid_str_type', lines, 4000)
+        # ---- aliasing first: one object in several Tuple slots (left operand), in both operands, as both operands
+        n_al = 2400 if quick else 40000           # (forked comparisons: the same volume per round, fresh seeds)
+        cs += chunks('alias', alias_lines(rng, B, n_al), 300)
+        if not intens:
+            # ---- full boundary grids
+            lines = [f'cmp {ti(a)} {ti(b)}' for a in B for b in B]
+            cs += chunks('grid_int', lines, 4000)
+            lines = [f'cmp {tf(a)} {tf(b)}' for a in FLT_B for b in FLT_B]
+            cs += chunks('grid_flt', lines, 4000)
+            lines = [f'cmp {ts(a)} {ts(b)}' for a in STR_B for b in STR_B]
+            lines += [f'cmp {tt(a)} {tt(b)}' for a in TYPE_NAMES for b in TYPE_NAMES]
+            cs += chunks('grid_str_type', lines, 4000)
+        cboost = boost                            # containers
+        boost = 1 if intens else boost            # scalars, keys, sort: fresh seeds, half the base volume
+        half = 2 if intens else 1
         # boundary triples (sampled) -----------------------------------------------------------------------------------
-        n_tri = (8000 if quick else 200000) * boost
+        n_tri = (8000 if quick else 200000) * boost // half
         lines = []
         for _ in range(n_tri):
             k = rng.choice('iiifffsst')
@@ -236,7 +402,7 @@ class C09(Spec):
             lines.append('tri ' + ' '.join(vals))
         cs += chunks('tri_boundary', lines, 3000)
         # ---- random scalar pairs and triples
-        n_pairs = (100000 if quick else 2500000) * boost
+        n_pairs = (100000 if quick else 2500000) * boost // half
         lines = []
         for _ in range(n_pairs):
             k = rng.choice('iiiifffsst')
@@ -256,7 +422,7 @@ class C09(Spec):
             else: b = rand_scalar(rng, k, B)
             lines.append(f'cmp {a} {b}')
         cs += chunks('rand_pairs', lines, 5000)
-        n_tr = (30000 if quick else 800000) * boost
+        n_tr = (30000 if quick else 800000) * boost // half
         lines = []
         for _ in range(n_tr):
             k = rng.choice('iiifffsst')
@@ -265,7 +431,7 @@ class C09(Spec):
             lines.append('tri ' + ' '.join(vals))
         cs += chunks('rand_tri', lines, 4000)
         # ---- containers
-        n_c = (40000 if quick else 800000) * boost
+        n_c = (40000 if quick else 800000) * ((1 if cboost <= 4 else 2) if intens else boost)
         lines = []
         for _ in range(n_c):
             r = rng.random()
@@ -288,7 +454,7 @@ class C09(Spec):
                 lines.append(f'cmp p{ta}:{ba.hex()} p{tb}:{bb.hex()}')
         cs += chunks('containers', lines, 3000)
         # ---- Tree / Table keyed on boundary values, sort
-        n_k = (1500 if quick else 30000) * boost
+        n_k = (1500 if quick else 30000) * boost // half
         lines = []
         # every boundary key in one Tree/Table
         lines.append('keys ' + ' '.join(ti(v) for v in B))
@@ -310,6 +476,7 @@ class C09(Spec):
                 vals = [ts(rand_str(rng)) for _ in range(n)]
             lines.append(('keys ' if rng.random() < 0.6 else 'sort ') + ' '.join(vals))
         cs += chunks('keys_sort', lines, 400)
+        if intens: return cs
         # ---- long sequences / strings that differ only at the very end (or are proper prefixes), every container combination
         lines = []
         for n in ([300, 1500] if quick else [300, 1500, 4000]):
@@ -320,16 +487,29 @@ class C09(Spec):
                     if r < 0.4: var[-1] = ti(rng.choice(B))
                     elif r < 0.7: var = var[:-1]
                     lines.append(f'cmp {seq_term(ka, base)} {seq_term(kb, var)}')
+            # a long Tuple over three objects (left operand) against the same content in fresh objects
+            objs = [ti(rng.choice(B)) for _ in range(3)]; pat = [rng.randrange(3) for _ in range(n)]
+            seen = set(); slots = []
+            for j in pat:
+                slots.append(f'*{j + 1}' if j in seen else f'&{j + 1} {objs[j]}'); seen.add(j)
+            cont = [objs[j] for j in pat]
+            for kb in 'ALT':
+                var = list(cont); r = rng.random()
+                if r < 0.4: var[-1] = ti(rng.choice(B))
+                elif r < 0.7: var = var[:-1]
+                lines.append(f'lcmp {seq_term("T", slots)} {seq_term(kb, var)}')
             s1 = bytes(rng.choice([0x61, 0xff, 0x80]) for _ in range(n)); s2 = s1[:-1] + bytes([rng.choice([1, 0x7f, 0xff])])
             lines += [f'cmp {ts(s1)} {ts(s2)}', f'cmp {ts(s1)} {ts(s1[:-1])}', f'cmp {ts(s1)} {ts(s1)}']
-        cs += chunks('long', lines, 12)
+        cs += chunks('long', lines, 15)
         # ---- a few ill-formed ops (both sides must refuse them identically)
         bad = ['cmp i1', 'cmp i1 s61', 'cmp f7ff8000000000000 f0000000000000000', 'cmp i9223372036854775808 i0', 'cmp s6100 s61',
                'cmp A2 i1 s61 A0', 'cmp A1 i1 R0', 'cmp tNoSuchType tInt', 'tri i1 i2', 'keys i1 s61', 'sort', 'cmp T1 p1:00000000 T0',
                'cmp R1 A0 i1 R0', 'cmp p1:000000 p1:00000000', 'cmp p4: p4:', 'frob i1 i2', 'cmp i-9223372036854775809 i0', 'cmp A1 i1 A1 s61',
                'cmp L1 tInt L0', 'cmp i+1 i1', 'cmp i i1', 'cmp A01 i1 A1 i1', 'cmp A i1', 'cmp A00000000000000000001 i1 A1 i1',
                'cmp R2 i1 i1 s61 i2 R0', 'cmp R1 i1 A0 R0', 'cmp A1_0 i1 A0', 'cmp A4097 A0', 'cmp fFFF0000000000000 f0000000000000000', 'cmp T2 tInt tInt T0',
-               'keys f7ff8000000000001', 'cmp s6 s61', 'cmp p1:0102030 p1:01020304']
+               'keys f7ff8000000000001', 'cmp s6 s61', 'cmp p1:0102030 p1:01020304',
+               'cmp *1 i1', 'cmp &1 i1 &1 i2', 'cmp &1 T1 *1 i1', 'cmp &64 i1 *64', 'cmp &1 i1', 'cmp & i1 i2', 'lcmp i1', 'lcmp T1 *1 &1 i1',
+               'cmp &001 i1 *1', 'cmp &1 i1 *01', 'lcmp &1 T2 &1 i1 i2 i3', 'cmp &-1 i1 i2', 'tri &1 i1 *1', 'cmp &1 A1 *1 *1']
         cs.append(Case('illformed', bad))
         return cs
 
@@ -339,7 +519,8 @@ class C09(Spec):
         out = set()
         for op, o in zip(ops, obs):
             if o.startswith('O cmp s=') and not o.startswith('O cmp s=0'): out.add(hash(op))
-            elif o.startswith('O cmp exc='): out.add(hash(op))
+            elif o.startswith('O lcmp s=') and not o.startswith('O lcmp s=0'): out.add(hash(op))
+            elif o.startswith('O cmp exc=') or o.startswith('O lcmp exc='): out.add(hash(op))
             elif o.startswith('O tri') and ('=1' in o or '=-1' in o): out.add(hash(op))
             elif (o.startswith('O keys n=') or o.startswith('O sort ')) and op.count(' ') >= 2: out.add(hash(op))
         return out
@@ -350,6 +531,7 @@ class C09(Spec):
         for op, o in zip(ops, obs):
             w = op.split(' ')
             key = w[0] + '_' + (w[1][0] if len(w) > 1 and w[1] else '?')
+            if '*' in op: acc['ops_with_shared_object'] = acc.get('ops_with_shared_object', 0) + 1
             acc[key] = acc.get(key, 0) + 1
             if o.startswith('O cmp s='):
                 s = o.split('s=')[1].split()[0]; acc['sign_' + s] = acc.get('sign_' + s, 0) + 1
@@ -359,7 +541,7 @@ class C09(Spec):
             for kv in l[2:].split():
                 if '=' in kv:
                     k, v = kv.split('=', 1)
-                    if v.isdigit() and k in ('cmp_calls',): acc[k] = acc.get(k, 0) + int(v)
+                    if v.isdigit() and k in ('cmp_calls', 'aliased', 'forked', 'hangs', 'known'): acc[k] = acc.get(k, 0) + int(v)
 
     def model_selfcheck(self, case, m_out):
         ls = m_out.split('\n')
@@ -367,6 +549,8 @@ class C09(Spec):
             if ls[i].startswith('O cmp s=') and ls[i + 1].startswith('R cmp '):
                 o = ls[i][2:].split(); r = ls[i + 1][2:].split()
                 if o[1:3] != r[1:3]: return f'model `{ls[i]}` vs reference order `{ls[i + 1]}`'
+            if ls[i].startswith('O lcmp s=') and ls[i + 1].startswith('R lcmp '):
+                if ls[i][2:].split()[1] != ls[i + 1][2:].split()[1]: return f'model `{ls[i]}` vs reference order `{ls[i + 1]}`'
             if ls[i].startswith('O tri ab=') and ls[i + 1].startswith('R tri '):
                 if ls[i][2:] != ls[i + 1][2:]: return f'model `{ls[i]}` vs reference order `{ls[i + 1]}`'
         return None
